@@ -2,8 +2,10 @@
 """tools/seedall.py <PID> [extra PIDs to run]: evaluate /tmp/seed/out/<PID>/patch{1,2}.diff and store kept seeds under /verif/seeded/."""
 import json, os, shutil, subprocess, sys
 pid = sys.argv[1]
-extra = sys.argv[2:]
-src = '/tmp/seed/out/%s' % pid
+extra = [a for a in sys.argv[2:] if not a.startswith('--')]
+base = os.environ.get('SEED_DIR', '/tmp/seed/out')
+off = int(os.environ.get('SEED_OFFSET', '0'))
+src = '%s/%s' % (base, pid)
 for n in (1, 2):
     patch, demo = '%s/patch%d.diff' % (src, n), '%s/demo%d.rs' % (src, n)
     if not os.path.exists(patch):
@@ -21,11 +23,11 @@ for n in (1, 2):
             if l.startswith(('VIOLATION', 'UNDECIDED', 'V ')):
                 print('    ', l[:230])
     if confirmed:
-        d = '/verif/seeded/%s-%d' % (pid, n)
+        d = '/verif/seeded/%s-%d' % (pid, n + off)
         os.makedirs(d, exist_ok=True)
         shutil.copy(patch, d + '/patch.diff'); shutil.copy(demo, d + '/demo.rs')
         notes = open(src + '/notes.md').read() if os.path.exists(src + '/notes.md') else ''
-        meta = dict(property=pid, source='independent sub-agent given only the property text and a scratch worktree', change=n,
+        meta = dict(property=pid, source='independent sub-agent given only the property text and a scratch worktree', change=n + off,
                     confirmed=dict(applies=True, existing_suite_passes=True, demo_fails_with_patch=True, demo_passes_without_patch=True),
                     ran='tools/seedrun.py (scratch worktree /tmp/seedcheck-*, removed afterwards)', checks=res['checks'], notes_file='notes.md')
         json.dump(meta, open(d + '/meta.json', 'w'), indent=1, ensure_ascii=False)
